@@ -5,6 +5,7 @@ import (
 	"compress/zlib"
 	"fmt"
 	"sort"
+	"strings"
 
 	"seehuhn.de/go/pdf"
 )
@@ -92,6 +93,40 @@ type File struct {
 	inUse    map[uint32]bool
 	revs     int
 	lastTail int
+	// room behind the header for FrontImage, and the byte range of the newest
+	// cross-reference section (absolute offsets into Buf)
+	resStart, resLen int
+	secStart, secEnd int
+}
+
+// Reserve writes n bytes of white space behind the header.  FrontImage can
+// later place a copy of the newest cross-reference section there.
+func (f *File) Reserve(n int) {
+	f.resStart = f.Buf.Len()
+	f.resLen = n
+	f.Buf.WriteString(strings.Repeat(" ", n-1) + "\n")
+}
+
+// FrontImage returns a copy of the image in which the newest cross-reference
+// section (table with trailer, or cross-reference stream object) has been
+// copied into the reserved area behind the header and startxref points at the
+// copy.  No other byte moves, so every offset stays valid; the copy's /Prev
+// now points forward in the file, as the first-page section of a linearised
+// file does.  ok is false if nothing was reserved or the section does not fit.
+func (f *File) FrontImage() (img []byte, ok bool) {
+	n := f.secEnd - f.secStart
+	if f.resLen == 0 || n <= 0 || n+2 > f.resLen {
+		return nil, false
+	}
+	img = f.Bytes()
+	pos := f.resStart + 1
+	copy(img[pos:], img[f.secStart:f.secEnd])
+	i := bytes.LastIndex(img, []byte("startxref"))
+	if i < 0 {
+		return nil, false
+	}
+	img = append(img[:i:i], fmt.Sprintf("startxref\n%d\n%%%%EOF\n", pos-f.hdr)...)
+	return img, true
 }
 
 // NewFile starts a file: optional junk, header line, binary comment.
@@ -531,6 +566,7 @@ func (f *File) Append(rev *Revision, s *Style) bool {
 		trailer["XRefStm"] = pdf.Integer(stmOff)
 		start = writeTable(tents, trailer)
 	}
+	f.secStart, f.secEnd = int(start)+f.hdr, f.Buf.Len()
 	fmt.Fprintf(&f.Buf, "startxref%s%d%s%%%%EOF%s", s.EOL(), start, s.EOL(), s.EOL())
 	f.prev = start
 	return true
